@@ -48,16 +48,16 @@ func (f *Unexport) Call(s *slip.Scope, args slip.List, depth int) slip.Object {
 	}
 	switch ta := args[0].(type) {
 	case slip.Symbol:
-		p.Unexport(string(ta))
+		unexportSymbol(s, depth, p, string(ta))
 	case slip.String:
-		p.Unexport(string(ta))
+		unexportSymbol(s, depth, p, string(ta))
 	case slip.List:
 		for _, v := range ta {
 			switch tv := v.(type) {
 			case slip.Symbol:
-				p.Unexport(string(tv))
+				unexportSymbol(s, depth, p, string(tv))
 			case slip.String:
-				p.Unexport(string(tv))
+				unexportSymbol(s, depth, p, string(tv))
 			default:
 				slip.TypePanic(s, depth, "symbol", tv, "symbol", "string")
 			}
@@ -66,4 +66,13 @@ func (f *Unexport) Call(s *slip.Scope, args slip.List, depth int) slip.Object {
 		slip.TypePanic(s, depth, "symbols", ta, "symbol", "string", "list")
 	}
 	return slip.True
+}
+
+// unexportSymbol makes name internal to p. A locked package is not changed,
+// unexporting what it does not export is fine.
+func unexportSymbol(s *slip.Scope, depth int, p *slip.Package, name string) {
+	if p.Locked && packageExports(p, name) {
+		slip.PackagePanic(s, depth, p, "Package %s is locked and can not be modified.", p)
+	}
+	p.Unexport(name)
 }
